@@ -18,6 +18,9 @@ oracles     : (numeric tie) dense matrix of the final MPO vs U1 U2^dagger from q
 extension   : value ties of the tensor contractions (`apply_gate`, `apply_temporal_zone`, `update_mpo`, `decompose_theta`,
               the einsums of `apply_long_range_layer`, `MPS.scalar_product` / `MPO.check_if_identity`) against
               Model/MpoUpdate.lean on exact inputs — kinds `t-*`, see the block "EXTENSION (x04)" below.
+extension 2 : end to end (kind `e2e`, block "EXTENSION (xc04)"): real `iterate` on nearest-neighbour pairs with every `update_mpo`
+              recorded — the chain-level model `CheckerChain.runSteps` is tied step by step (`iter` event list + `update` per step +
+              `idtrace` on the final chain), the final operator is U1.U2^dagger with the order asserted, the scalar is tr(U1^dagger U2).
 """
 from __future__ import annotations
 
@@ -1172,10 +1175,269 @@ def gen_base(rng, tier):
         yield {"kind": k, "sub": rng.randrange(1 << 30)}
 
 
+# ================================================================================================================
+# EXTENSION (xc04): end to end — the chain-level run of `iterate` (Model/CheckerChain.lean, Props/C04.lean Part D)
+# ================================================================================================================
+# kind `e2e` (one real `iterate` on a random pair of nearest-neighbour circuits, n = 2..5, 1..10 gates each, tiny threshold):
+#   * the run goes through `run_pair` (label "e2e"): trace tie of the event list against `iter`, sub-ties, wire-order oracle,
+#     loop bound, final MPO vs U1.U2^dagger — nothing of that is duplicated here; around it every real `update_mpo` is recorded
+#     (all tensors before / after, the gate objects and instructions of its two zones, the SVD `decompose_theta` received)
+#   * `e2e-update`: a sample of those updates through the driver's `update` request (`updateThetaM` + `decomposeTheta`, the
+#     step function of `CheckerChain.updateMpo`) on the binary64 tensors the code held at that moment
+#   * `e2e-chain` (oracle, no model): first chain = `MPO.identity`; each update touches only tensors m, m+1 and the next one
+#     starts from exactly the tensors the previous one left (so the per-update ties chain up to `runSteps`); per update
+#     to_matrix(after) = embed(U1 zone).to_matrix(before).embed(U2 zone)^dagger (C04.27 on the real code); `gate.sites` /
+#     `gate.interaction` = the instruction's qubits (hypothesis `NNCircuit`); the event list has no long-range step; spec tie of
+#     `ExactSteps`: kept part of every SVD reproduces the block handed to it
+#   * `e2e-order` (oracle): to_matrix(final) = U1.U2^dagger with the ORDER asserted — compared against the four other
+#     conventions (U2.U1^dagger, U1^dagger.U2, U2^dagger.U1, U1.U2^T) whenever they differ — and the swapped call gives U2.U1^dagger
+#   * `e2e-idtrace`: `check_if_identity` on the final chain through the driver's `idtrace` request; the captured scalar must be
+#     tr(U1^dagger U2) as a complex number (C04.30), not only in modulus
+#   * `e2e-verdict`: `verdict |trace| n f` for fidelities around |tr(U1^dagger U2)|/2^n, with the dense oracle
+E2E = {"n": 0, "updates": 0, "tied_updates": 0, "order_dev": 0.0, "order_discriminating": 0, "step_dev": 0.0, "scalar_dev": 0.0,
+       "exact_rel": 0.0, "exact_bad": 0, "exact_detail": "", "gateobj_bad": 0, "max_bond": 1, "chain_bad": 0, "chain_detail": "",
+       "scalar_bad": 0, "scalar_detail": ""}
+E2E_SCALAR_TOL = 1e-8      # captured scalar vs tr(U1^dag U2); largest deviation seen on the clean tree over seeds 0..5: 3e-14
+E2E_STEP_TOL = 1e-8        # per update, relative; seen: 2e-15
+E2E_MAX_TIE_ENTRIES = 1024 # rows*cols of the block handed to the SVD, for the updates sent to the driver
+
+
+class UpdateRec:
+    """records every call of the real `update_mpo` made while it is installed (nests with `Spy`, `ZoneRec`)"""
+
+    def __init__(self):
+        self.updates, self.svds, self.zones, self.mpo = [], [], ZoneRec(), None
+
+    def patches(self):
+        o_upd = mu.update_mpo
+        rec = self
+
+        def upd(mpo, dag1, dag2, qubits, threshold):
+            rec.mpo = mpo
+            rec.dags = (dag1, dag2)
+            u = {"m": int(qubits[0]), "thr": float(threshold), "before": [np.array(t) for t in mpo.tensors],
+                 "z0": len(rec.zones.calls), "s0": len(rec.svds)}
+            r = o_upd(mpo, dag1, dag2, qubits, threshold)
+            u["after"] = [np.array(t) for t in mpo.tensors]
+            u["zones"] = rec.zones.calls[u["z0"]:]
+            for z in u["zones"]:
+                z["circuit"] = 1 if z.get("dag") is dag1 else 2 if z.get("dag") is dag2 else (2 if z["conj"] else 1)
+            u["svd"] = rec.svds[-1] if len(rec.svds) > u["s0"] else None
+            rec.updates.append(u)
+            return r
+
+        zp = self.zones.patches()
+        inner = dict((name, fn) for _, name, fn in zp)["apply_temporal_zone"]
+
+        def atz(theta, dag, qubits, *, conjugate=False):      # on top of ZoneRec's wrapper: remember which DAG the zone came from
+            k = len(rec.zones.calls)
+            r = inner(theta, dag, qubits, conjugate=conjugate)
+            if len(rec.zones.calls) > k:
+                rec.zones.calls[k]["dag"] = dag
+            return r
+
+        return [(mod, name, atz if name == "apply_temporal_zone" else fn) for mod, name, fn in zp] + [(mu, "update_mpo", upd)]
+
+
+def nn_instrs(rng, n, m):
+    return rand_instrs(rng, n, m, plong=0.0, p1=0.4)
+
+
+def run_e2e(inp):
+    rng = random.Random(inp["sub"])
+    if "c1" in inp:
+        n, i1, i2 = inp["n"], inp["c1"], inp["c2"]
+    else:
+        n = rng.choice([2, 3, 3, 4, 4, 5])
+        i1 = nn_instrs(rng, n, rng.randrange(1, 11))
+        i2 = nn_instrs(rng, n, rng.randrange(1, 11))
+        if rng.random() < 0.25:                             # an equivalent pair: the trace is large and the verdict can be "equivalent"
+            i2 = [g for g in resynth(rng, i1) if len(g[1]) == 1 or abs(g[1][0] - g[1][1]) == 1]
+            if rng.random() < 0.5:
+                i2 = i2 + [["rz", [rng.randrange(n)], [rng.choice([1e-3, 0.05, 0.4])]]]
+    thr = inp.get("threshold") or rng.choice([1e-13, 1e-14])
+    rec = UpdateRec()
+    with patched(rec.patches()), t_capture_svd(rec.svds):
+        out = run_pair(inp, i1, i2, n, thr, "e2e")
+    main = out[0]
+    if rec.mpo is None or "done" not in str(main.get("impl", "")):
+        return out                                           # run_pair's oracle already reports what went wrong
+    mpo = rec.mpo
+    E2E["n"] += 1
+    E2E["updates"] += len(rec.updates)
+    u1, u2 = unitary(n, i1), unitary(n, i2)
+    dim = 2**n
+    # ---------------------------------------------------------------- chain bookkeeping (spec ties) + per-update dense oracle
+    # `probs`  : the operator is wrong (a statement about the property's mechanism, model-independent)            -> oracle
+    # `sprobs` : the run is not shaped the way `CheckerChain.runSteps` assumes (which is not by itself a wrong verdict) -> spec tie
+    probs, sprobs = [], []
+    ident = [np.expand_dims(np.eye(2, dtype=complex), (2, 3)) for _ in range(n)]
+    prev = ident
+    if any(e.startswith("g") for e in str(main["impl"]).split()):
+        sprobs.append("a nearest-neighbour pair took the long-range branch of iterate")
+    for k, u in enumerate(rec.updates):
+        m = u["m"]
+        if len(u["before"]) != n or any(a.shape != b.shape or not np.array_equal(a, b) for a, b in zip(u["before"], prev)):
+            sprobs.append(f"update {k} at ({m},{m + 1}) does not start from the tensors the previous update left")
+            break
+        for j in range(n):
+            if j not in (m, m + 1) and not np.array_equal(u["before"][j], u["after"][j]):
+                sprobs.append(f"update {k} at ({m},{m + 1}) changed tensor {j}")
+        prev = u["after"]
+        zs = u["zones"]
+        if not (len(zs) == 2 and zs[0]["conj"] is False and zs[1]["conj"] is True and zs[0]["n"] == m and zs[1]["n"] == m):
+            sprobs.append(f"update {k}: zones applied with (site, conjugate) = {[(z['n'], z['conj']) for z in zs]}")
+        for z in zs:
+            if len(z["gates"]) != len(z["instrs"]):
+                sprobs.append(f"update {k}: {len(z['instrs'])} instructions but {len(z['gates'])} gate objects")
+            for g, ins in zip(z["gates"], z["instrs"]):
+                if [int(q) for q in g.sites] != [int(q) for q in ins[1]] or int(g.interaction) != len(ins[1]):
+                    E2E["gateobj_bad"] += 1
+                    sprobs.append(f"gate object for {ins[0]} on {ins[1]} has sites {list(g.sites)} interaction {g.interaction}")
+        # whatever the call structure: gates of circuit 1 (recognised by the DAG they were taken from) from the left in the order
+        # taken, adjoints of the gates of circuit 2 from the right
+        a1, a2 = np.eye(4, dtype=complex), np.eye(4, dtype=complex)
+        for z in zs:
+            for ins in z["instrs"]:
+                if z.get("circuit", 2 if z["conj"] else 1) == 1:
+                    a1 = local_unitary([ins], m) @ a1
+                else:
+                    a2 = local_unitary([ins], m) @ a2
+        old_m, new_m = custom_mpo(u["before"]).to_matrix(), custom_mpo(u["after"]).to_matrix()
+        want = embed(a1, m, n) @ old_m @ embed(a2, m, n).conj().T
+        rel = float(np.linalg.norm(new_m - want)) / max(1.0, float(np.linalg.norm(want)))
+        E2E["step_dev"] = max(E2E["step_dev"], rel)
+        if rel > E2E_STEP_TOL + 1e4 * thr:
+            probs.append(f"update {k} at ({m},{m + 1}): chain differs from embed(U1 zone).old.embed(U2 zone)^dagger by {rel:.2e} (relative)")
+        if u["svd"] is not None:                              # spec tie of `ExactSteps` (no truncation)
+            tm, uu, ss, vh = u["svd"]
+            keep = u["after"][m].shape[3]
+            kept = (uu[:, :keep] * ss[:keep]) @ vh[:keep]
+            er = float(np.linalg.norm(kept - tm)) / max(1.0, float(np.linalg.norm(tm)))
+            E2E["exact_rel"] = max(E2E["exact_rel"], er)
+            E2E["max_bond"] = max(E2E["max_bond"], keep)
+            if er > 1e-9:
+                E2E["exact_bad"] += 1
+                E2E["exact_detail"] = f"update {k}: kept {keep}/{len(ss)}, ||kept - block|| / ||block|| = {er:.2e}, threshold {thr}"
+    if rec.updates and any(not np.array_equal(a, np.asarray(b)) for a, b in zip(prev, mpo.tensors)):
+        sprobs.append("the final tensors are not those the last update_mpo left")
+    if rec.updates and any(not np.array_equal(a, b) for a, b in zip(rec.updates[0]["before"], ident)):
+        sprobs.append("the first update does not start from MPO.identity")
+    if sprobs:
+        E2E["chain_bad"] += 1
+        E2E["chain_detail"] = f"n={n} c1={i1} c2={i2}: " + "; ".join(sprobs[:3])
+    out.append({"req": None, "impl": None, "kind": "e2e-chain", "oracle": {"ok": not probs, "detail": "; ".join(probs[:4]) or
+                f"{len(rec.updates)} updates, each = embed(U1 zone).old.embed(U2 zone)^dagger"},
+                "sig": f"e2e-chain:{n}:{len(i1)}:{len(i2)}:{len(rec.updates)}", "nontrivial": len(rec.updates) > 0})
+    # ---------------------------------------------------------------- a sample of the updates through the driver
+    cand = [u for u in rec.updates if u["svd"] is not None and len(u["zones"]) == 2
+            and u["svd"][0].shape[0] * u["svd"][0].shape[1] <= E2E_MAX_TIE_ENTRIES]
+    busy = [u for u in cand if u["zones"][0]["gates"] or u["zones"][1]["gates"]]
+    idle = [u for u in cand if not (u["zones"][0]["gates"] or u["zones"][1]["gates"])]
+    rr = random.Random(inp["sub"] + 1)
+    rr.shuffle(busy)
+    rr.shuffle(idle)
+    for u in busy[:4] + idle[:1]:
+        m = u["m"]
+        tm, uu, ss, vh = u["svd"]
+        g1, g2 = u["zones"][0]["gates"], u["zones"][1]["gates"]
+        a_t, b_t = u["before"][m], u["before"][m + 1]
+        req = (f"update 2 {m} {len(ss)} {ib.frac(u['thr'])} {len(g1)} {len(g2)} | {site_tokens(a_t)} | {site_tokens(b_t)} | "
+               + "".join(gate_part(g) + " | " for g in g1 + g2) + dec_parts(uu, ss, vh))
+        E2E["tied_updates"] += 1
+        out.append({"req": req, "impl": decomp_impl(tm, u["after"][m], u["after"][m + 1]), "kind": "e2e-update", "oracle": None,
+                    "sig": f"e2e-update:{n}:{m}:{len(g1)}:{len(g2)}:{a_t.shape[2]}{a_t.shape[3]}{b_t.shape[3]}:{u['after'][m].shape[3]}",
+                    "nontrivial": len(g1) + len(g2) > 0})
+    # ---------------------------------------------------------------- the ORDER of the product
+    final = mpo.to_matrix()
+    ref = u1 @ u2.conj().T
+    tol = NUM_TOL + 1e4 * thr * max(1, len(i1) + len(i2))
+    dev = float(np.linalg.norm(final - ref))
+    E2E["order_dev"] = max(E2E["order_dev"], dev)
+    alts = {"U2.U1^dagger": u2 @ u1.conj().T, "U1^dagger.U2": u1.conj().T @ u2, "U2^dagger.U1": u2.conj().T @ u1, "U1.U2^T": u1 @ u2.T,
+            "conj(U1).U2^dagger": u1.conj() @ u2.conj().T}
+    disc = [k for k, a in alts.items() if float(np.linalg.norm(a - ref)) > 1e-3]
+    oprobs = []
+    if dev > tol:
+        near = [k for k, a in alts.items() if float(np.linalg.norm(final - a)) <= tol]
+        oprobs.append(f"to_matrix() of the final MPO differs from U1.U2^dagger by {dev:.3e} (> {tol:.1e})" + (f"; it equals {near[0]}" if near else ""))
+    mpo_sw = MPO()
+    mpo_sw.identity(n)
+    mu.iterate(mpo_sw, circuit_to_dag(build(n, i2)), circuit_to_dag(build(n, i1)), thr)
+    dev_sw = float(np.linalg.norm(mpo_sw.to_matrix() - u2 @ u1.conj().T))
+    E2E["order_dev"] = max(E2E["order_dev"], dev_sw)
+    if dev_sw > tol:
+        oprobs.append(f"swapped call: to_matrix() differs from U2.U1^dagger by {dev_sw:.3e}")
+    if len(disc) == len(alts):
+        E2E["order_discriminating"] += 1
+    out.append({"req": None, "impl": None, "kind": "e2e-order", "oracle": {"ok": not oprobs, "detail": "; ".join(oprobs) or
+                f"final MPO = U1.U2^dagger (dev {dev:.1e}); distinguishable from {len(disc)}/{len(alts)} other conventions"},
+                "sig": f"e2e-order:{n}:{len(disc)}", "nontrivial": len(disc) == len(alts)})
+    # ---------------------------------------------------------------- the scalar and the verdict
+    want_tr = complex(np.trace(u1.conj().T @ u2))
+    ov = abs(want_tr) / dim
+    fids = [f for f in (ov * (1 - 1e-3), ov * (1 + 1e-3), ov + 1e-5, ov - 1e-5, 0.5, rng.uniform(0.05, 0.999)) if f > 0.0]
+    for f in fids:
+        with Spy() as spy:
+            got = bool(mpo.check_if_identity(f))
+        tr = complex(spy.traces[-1])
+        sdev = abs(tr - want_tr)
+        E2E["scalar_dev"] = max(E2E["scalar_dev"], sdev)
+        vprobs = []
+        if sdev > E2E_SCALAR_TOL * dim:                      # spec tie of C04.30's identification of the scalar (phase included);
+            E2E["scalar_bad"] += 1                           # only a wrong MODULUS is a wrong verdict, and that is the oracle below
+            E2E["scalar_detail"] = (f"n={n} c1={i1} c2={i2}: check_if_identity computed the scalar {tr!r}; tr(U1^dagger U2) = {want_tr!r}"
+                                    + (" (it is the complex conjugate)" if abs(tr - want_tr.conjugate()) <= E2E_SCALAR_TOL * dim else ""))
+        if abs(abs(tr) - abs(want_tr)) > E2E_SCALAR_TOL * dim:
+            vprobs.append(f"check_if_identity computed a scalar of modulus {abs(tr)!r}; |tr(U1^dagger U2)| = {abs(want_tr)!r}")
+        if abs(ov - f) > EPS_MARGIN and got != (ov > f):
+            vprobs.append(f"|tr(U1^dagger U2)|/2^n = {ov!r}, fidelity {f!r}: check_if_identity says {got}")
+        orc = {"ok": not vprobs, "detail": "; ".join(vprobs) or f"scalar = tr(U1^dagger U2) (dev {sdev:.1e}); verdict {got} at f={f!r}, overlap {ov!r}"}
+        t = np.abs(spy.traces[-1])
+        edge = abs(float(t) / dim - f) <= 1e-12 * max(1.0, f)
+        out.append(dict(verdict_case(t, n, f, got, "e2e-verdict", f"e2e-verdict:{n}:{got}:{'gt' if f > ov else 'lt'}", orc), edge=edge))
+    f0 = fids[inp["sub"] % 2] if len(fids) > 1 else fids[0]   # just below / just above the overlap: both decisions occur
+    with Spy() as spy:
+        got0 = bool(mpo.check_if_identity(f0))
+    tr0 = complex(spy.traces[-1])
+    if sum(np.asarray(t).size for t in mpo.tensors) <= 1200:
+        out.append({"req": f"idtrace {ib.frac(f0)} | " + " | ".join(site_tokens(t) for t in mpo.tensors), "impl": f"tr {ib.cfrac(tr0)} dec {int(got0)}",
+                    "kind": "e2e-idtrace", "oracle": None, "edge": abs(abs(tr0) / dim - f0) <= 1e-9 * max(1.0, f0),
+                    "sig": f"e2e-idtrace:{n}:{int(got0)}:" + "".join(str(np.asarray(t).shape[3]) for t in mpo.tensors), "nontrivial": abs(tr0) > 0})
+    return out
+
+
+def e2e_spec():
+    return [{"name": "e2e: final MPO of the real iterate = U1.U2^dagger with the order asserted (five other conventions told apart), swapped call = U2.U1^dagger; "
+                     "per update to_matrix(after) = embed(U1 zone).to_matrix(before).embed(U2 zone)^dagger; captured scalar = tr(U1^dagger U2) as a complex number",
+             "ok": True, "runs": E2E["n"], "updates": E2E["updates"], "updates_sent_to_driver": E2E["tied_updates"],
+             "order_discriminating_runs": E2E["order_discriminating"], "worst_final_deviation": E2E["order_dev"],
+             "worst_update_relative_deviation": E2E["step_dev"], "worst_scalar_deviation": E2E["scalar_dev"], "largest_bond": E2E["max_bond"],
+             "tolerances": {"final": "NUM_TOL + 1e4*thr*gates", "update": E2E_STEP_TOL, "scalar": f"{E2E_SCALAR_TOL}*2^n"}},
+            {"name": "e2e: hypothesis ExactSteps of iterate_represents_product / checker_correct on the real runs — the kept part u[:, :keep].diag(s[:keep]).vh[:keep] "
+                     "of every SVD inside decompose_theta reproduces the block handed to it (nothing but numerically zero singular values is discarded)",
+             "ok": E2E["exact_bad"] == 0, "n": E2E["updates"], "worst_relative_residual": E2E["exact_rel"], "detail": E2E["exact_detail"]},
+            {"name": "e2e: the real run has the shape CheckerChain.runSteps assumes — starts from MPO.identity, no long-range step, every update_mpo reads and "
+                     "writes only tensors m, m+1 and starts from what the previous one left, zone of circuit 1 plain then zone of circuit 2 conjugated, gate objects "
+                     "carry the instruction's qubits (hypothesis NNCircuit)",
+             "ok": E2E["chain_bad"] == 0, "n": E2E["n"], "detail": E2E["chain_detail"]},
+            {"name": "e2e: the scalar check_if_identity computes is tr(U1^dagger U2) as a complex number (C04.30 checker_correct: conj(tr(U1.U2^dagger)))",
+             "ok": E2E["scalar_bad"] == 0, "n": E2E["n"], "worst_deviation": E2E["scalar_dev"], "detail": E2E["scalar_detail"]}]
+
+
+def gen_e2e(rng, tier):
+    m = {"quick": 80, "thorough": 800, "search": 120}.get(tier, 80)
+    for _ in range(m):
+        yield {"kind": "e2e", "sub": rng.randrange(1 << 30)}
+
+
 def gen(rng, tier):
     """the original kinds keep their random stream; the tensor kinds (cheap) are drawn afterwards and run first"""
     base = list(gen_base(rng, tier))
-    yield from gen_tensor(rng, tier)
+    tens = list(gen_tensor(rng, tier))
+    e2e = list(gen_e2e(rng, tier))                          # drawn last: the streams of the older kinds are unchanged
+    yield from tens
+    yield from e2e
     yield from base
 
 
@@ -1191,13 +1453,15 @@ def spec():
     return [{"name": "numeric tie: final MPO of the real iterate vs U1 U2^dag (qiskit Operator)", "ok": True, "n": WORST["numeric_n"],
              "worst_deviation": WORST["numeric_dev"], "worst_deviation_over_tolerance": WORST["numeric_rel_tol"]},
             {"name": "overlap |trace|/2^n computed by the checker vs exact |tr(U1^dag U2)|/2^n", "ok": True, "n": WORST["overlap_n"],
-             "worst_deviation": WORST["overlap_dev"], "margin_used_by_oracles": EPS_MARGIN}] + t_spec()
+             "worst_deviation": WORST["overlap_dev"], "margin_used_by_oracles": EPS_MARGIN}] + t_spec() + e2e_spec()
 
 
 def run_kind(inp):
     k = inp["kind"]
     if k in T_RUNNERS:
         return T_RUNNERS[k](inp)
+    if k == "e2e":
+        return real_code_raised(run_e2e)(inp)
     if k == "diag":
         return run_diag(inp)
     if k == "iter":
@@ -1225,12 +1489,19 @@ if __name__ == "__main__":
                  "site orders, name 'I', wrong sites, interaction 3; library gates) x conjugate, apply_temporal_zone on real DAGs, update_mpo "
                  "inside rational chains (merged theta, matrix handed to the SVD, kept rank, tensors written back; thresholds between the "
                  "singular values), decompose_theta, every reshaped einsum of apply_long_range_layer (pair / hanging, both orientations, gate "
-                 "MPO on 3..5 sites), MPS.scalar_product, check_if_identity's scalar and decision; bond dimensions 1..3",
+                 "MPO on 3..5 sites), MPS.scalar_product, check_if_identity's scalar and decision; bond dimensions 1..3; "
+                 "end to end (e2e): random nearest-neighbour pairs (n=2..5, 1..10 gates each, a quarter of them resynthesised equivalents "
+                 "+- a small rz), thresholds 1e-13/1e-14: event list vs iter, up to five recorded update_mpo calls per run vs update, the "
+                 "final chain vs idtrace, verdict at six fidelities around the exact overlap; oracles: updates chain up from MPO.identity, "
+                 "each update = embedded zone products, final = U1.U2^dagger (order asserted against five other conventions, swapped call), "
+                 "scalar = tr(U1^dagger U2)",
             trusted_base=["qiskit Operator (dense reference unitary) and numpy in the oracles",
                           "qiskit circuit_to_dag / layers / remove_op_node modelled as the wire-dependency front of an instruction list (trace-tied)",
                           "tensor numerics of the MPO build (apply_gate, decompose_theta, long-range gate MPO) modelled-not-verified: numeric tie only",
                           "extension: the index algebra of those contractions is now modelled (Model/MpoUpdate.lean) and value-tied; what stays "
-                          "outside is LAPACK's SVD (spec-tied on every matrix decompose_theta hands to it) and binary64 rounding"],
+                          "outside is LAPACK's SVD (spec-tied on every matrix decompose_theta hands to it) and binary64 rounding",
+                          "end to end (Part D): the theorems assume untruncated splits (ExactSteps), nearest-neighbour circuits and gate objects carrying "
+                          "the instruction's qubits (NNCircuit) — all three spec-tied on every e2e run; long-range gates stay numeric-tie only"],
             assumptions=["t handed to the model is the binary64 |trace| the real scalar_product returned, as an exact rational",
                          "barriers / measurements / one-qubit registers are outside the iterate model (n = 1 is tied to the model's `assert`)"],
             spec=spec)
